@@ -10,6 +10,9 @@ fields (a generic `Annotated` alias, a `field(..)` constant), names that string 
 bound / re-bound / deleted between the class definitions, and subclasses of `property` used as the decorator.  Each class is
 judged as if it were the only one: by what its own source text means at the moment the class is created.
 
+A second stream ("histories of equal-comparing annotations", see gen_perm_case) declares several classes whose annotations
+are orders / spellings of shared member pools: Python identifies such annotations (==, hash), the implied default does not.
+
   oracle          the property statement, computed by the harness from the declaration plan with stdlib introspection
                   (typing.get_origin / get_args, calling the annotated class) — never through the library; declared
                   defaults of Field objects are read from a registry filled when the source creates them, and every
@@ -1718,7 +1721,15 @@ def run(ctx: C.Ctx):
                 'decorators of the user below `@x.setter` (functools.wraps-based — carrying __wrapped__ —, stacked, bare closures; '
                 '30% of the settable properties): every call of the setter function by the constructor (default, argument) or by '
                 'an assignment must have entered through all of its decorators; wild: arbitrary '
-                'member lists over names a/_a/b/_b (shadowing, colliding properties) for model correspondence only. Per class: '
+                'member lists over names a/_a/b/_b (shadowing, colliding properties) for model correspondence only; histories of '
+                'equal-comparing annotations (a stream of its own, indices from 100000): one or two member pools per case (Union '
+                'member types / Literal values, a second pool sometimes the 0/False-1/True cousin of the first) and 1..4 classes '
+                'declared in one process whose property fields are annotated with independently drawn orders x spellings of the '
+                'pools (Union[..], X | Y, repeated members, nested / mixed Unions, nested Literals, the Optional spellings with None '
+                'in any position, sub-pools) written directly, inside Annotated[.., \'meta\' / field(..)], as a string, or through '
+                'a module-level name; instances are constructed between the declarations; each class is judged against the '
+                'default implied by its own annotation (first member / first value), the model gets the member order of the '
+                'object Python made of the text. Per class: '
                 'every subset of the optional constructor arguments (<= 4 optional, else empty/full/(co-)singletons), a missing '
                 'required argument, an unexpected keyword, a property object as argument; two instances per argument set; later '
                 'assignments. Non-trivial = a case with at least one settable property.')
